@@ -66,8 +66,7 @@ def register(add):
         remove_bodies=[f for f in E2F if f != 'ep2_mul_reg_gls'],
         note='group-level event monitor; callees abstract and trusted to be constant-time as units; public: bits(order), bits(u). The recoding length is the one the CONTRACT of the abstract '
              'bn_rec_sac promises (a function of public data); the real bn_rec_sac does not keep it on BN curves (cof = 1) - reported as a finding, outside this unit',
-        bound_note='all order lengths 1..RLC_FP_BITS+1: the column loop is closed by a loop contract; the constant-bound loops are unwound', **dict(e2, flags=['--object-bits', '12']),
-        ignore=[(r'shift operand is negative in \(signed int\)col << 1', 'col is assembled from recoded columns, which the real bn_rec_sac writes as 0/1; the abstract recoding returns arbitrary bytes (their VALUES are the secret)')])
+        bound_note='all order lengths 1..RLC_FP_BITS+1: the column loop is closed by a loop contract; the constant-bound loops are unwound', **dict(e2, flags=['--object-bits', '12']))
     add('c20x.ep2_mul_lwreg', ['C20'], 'ep2_mul_lwreg', timeout=600, call='ep2_mul_lwreg(r, p, k)',
         replace=['ep2_mul_reg_gls', X2('bn_is_zero'), X2('ep2_is_infty'), X2('ep_curve_is_endom'), X2('ep2_set_infty')], remove_bodies=[f for f in E2F if f != 'ep2_mul_lwreg'],
         note='public entry (= g2_mul_sec) over the contract of the worker ep2_mul_reg_gls; pre: k != 0, p != infinity, curve with endomorphism (every curve of G_2 in the library)',
